@@ -36,6 +36,11 @@ def labelled(rows: int, cols: int | None, entries: str):
         a = idx * 1.25 + 0.5
     elif entries == "complex":
         a = (idx + 1) + 1j * ((idx * 7919 + 13) % 10007)
+    elif entries in ("neardiag", "nearzero"):  # looks diagonal / zero to np.allclose, is not (entries k * 2^-40, exact)
+        a = (idx % 8191 + 1) * 2.0 ** -40
+        if entries == "neardiag":
+            rr, cc = np.divmod(idx, c)
+            a = np.where(rr == cc, 2.0 ** 20 * (idx + 1), a)
     elif entries == "ctiny":  # imaginary parts of order 1e-15: a relabelling may not apply an absolute threshold to its entries
         a = (idx + 1) + 1j * (((idx * 7919 + 13) % 10007) * 2.0 ** -60)
     else:
@@ -165,7 +170,7 @@ def index_cases(tier, seed):
                             forms += ["omitted"]
                         for dimform in forms:
                             for storage in ("dense", "csr"):
-                                ents = ("sym", "int", "intB", "float", "complex", "ctiny") if storage == "dense" else ("int", "complex")
+                                ents = ("sym", "int", "intB", "float", "complex", "ctiny", "neardiag", "nearzero") if storage == "dense" else ("int", "complex")
                                 if R * C > 400:
                                     ents = ents[:2]
                                 for ent in ents:
